@@ -63,6 +63,16 @@ DatasetErr(o, E) ==
          ELSE IF \E x \in U, k \in DOMAIN R : o.Bk[id(x) + 1][k] # BIdx(R[k], x) - 1 THEN "bucket-ids-matrix"
          ELSE "ok"
 
+\* The numbering the code actually uses (dataset.py, _analyse_rankings): elements are numbered in the order of their
+\* first appearance -- ranking by ranking, bucket by bucket; inside one bucket the order is the iteration order of a
+\* Python set, which the specification leaves free.  The properties only ask for a bijection (DatasetErr); this finer
+\* statement is compared as drift.  The scan order of BioConsert and of the exact models follows this numbering.
+FirstApp(R, x) == LET k == Min({j \in DOMAIN R : x \in Dom(R[j])}) IN <<k, BIdx(R[k], x)>>
+AppearsBefore(R, x, y) == LET a == FirstApp(R, x)  b == FirstApp(R, y) IN a[1] < b[1] \/ (a[1] = b[1] /\ a[2] < b[2])
+IdsInFirstAppearanceOrder(o) ==
+    LET R == DsOf(o)  U == Universe(R) IN
+    \A x, y \in U : AppearsBefore(R, x, y) => o.e2i[x] < o.e2i[y]
+
 \* ---------------------------------------------------------------- a step on a live object
 RECURSIVE SubsErr(_, _, _, _)
 SubsErr(subs, R, E, k) ==
@@ -106,6 +116,7 @@ VStep(rec) ==
        ELSE IF rec.out = "ok" /\ ~Acceptable(new) THEN <<"drift", "model-refuses">>
        ELSE IF rec.out # "ok" /\ Acceptable(new) THEN <<"drift", "implementation-refuses:" \o rec.out>>
        ELSE IF rec.out # "ok" /\ R # DsOfJson(rec.pre) THEN <<"drift", "state-changed-by-refused-call">>
+       ELSE IF ~IdsInFirstAppearanceOrder(rec.obs) THEN <<"drift", "ids-not-in-order-of-first-appearance">>
        ELSE <<"ok", "views">>
 
 \* ---------------------------------------------------------------- a ranking from any source
